@@ -433,6 +433,15 @@ func c19Geometry(c *run.Ctx, idx uint64) {
 	if fillAdj != 0 {
 		c.Count("filled_through_a_selector_adjustment", 1)
 	}
+	// One case in four calls the helper twice: first with the same geometry,
+	// spread, shape and number of stops but other stop colours and offsets (and a
+	// path filled with that), then with the stops that are judged. "The stops
+	// given are the ones rendered" - those of the last call.
+	twice := r.Chance(1, 4)
+	stops0 := c19ValidStops(r, len(q.stops))
+	if twice {
+		c.Count("helper_called_twice_with_other_stops", 1)
+	}
 	prog := func(dst ivg.Destination) error {
 		d := &rec.Dest{Tee: dst}
 		c19Prior(c, r.Clone(), d)
@@ -445,6 +454,21 @@ func c19Geometry(c *run.Ctx, idx uint64) {
 		g.SetDestination(d)
 		if idx%2 == 1 {
 			g.SetTransform(generate.Scale(2, -3), generate.Translate(5, 6)) // for path data only
+		}
+		if twice {
+			q0 := *q
+			q0.stops = stops0
+			if err := q0.do(&g); err != nil {
+				return err
+			}
+			if fillAdj != 0 {
+				dst.SetCSel((sel + fillAdj) & 63)
+			}
+			dst.StartPath(fillAdj, vb.MinX, vb.MinY)
+			dst.AbsLineTo(vb.MaxX, vb.MaxY)
+			dst.AbsLineTo(vb.MinX, vb.MaxY)
+			dst.ClosePathEndPath()
+			dst.SetCSel(sel)
 		}
 		err := q.do(&g)
 		if fillAdj != 0 {
